@@ -213,12 +213,35 @@ theorem C08_range_transform_partial (s : Stats) (hg : s.gcd ≠ 0) (lo hi v : Na
       ((transformRange s lo hi).1 ≤ (v - s.min) / s.gcd ∧ (v - s.min) / s.gcd ≤ (transformRange s lo hi).2) :=
   transformRange_exact s hg lo hi v hv hd hHi
 
-/-- values [10, 20, 30], query range 0..=5: the transformed range is [0, 0], which the stored value
-of 10 (`(10 − 10)/10 = 0`) satisfies although 10 ∉ [0, 5] -/
+/-- the rows `BitpackedReader::get_row_ids_for_value_range` reports, as the *current* source computes
+them (`Gen.RANGE_BELOW_MIN_GUARD` is re-extracted on every run), are exactly the rows holding a
+value in the query range — provided the source has the guard, or the query range is not entirely
+below the column minimum (named hypothesis `hGuardOrHi`; its failure is the known finding
+C08:range-below-min-returns-min-rows). -/
+theorem C08_range_rows_partial (s : Stats) (hg : s.gcd ≠ 0) (vals : List Nat)
+    (hv : ∀ v ∈ vals, s.min ≤ v ∧ s.gcd ∣ v - s.min) (lo hi : Nat)
+    (hGuardOrHi : Gen.RANGE_BELOW_MIN_GUARD = true ∨ s.min ≤ hi ∨ lo > hi) :
+    rangeRowsWith Gen.RANGE_BELOW_MIN_GUARD s (vals.map (fun v => (v - s.min) / s.gcd)) lo hi
+      = (List.range vals.length).filter (fun i => decide (lo ≤ vals.getD i 0) && decide (vals.getD i 0 ≤ hi)) := by
+  rcases hGuardOrHi with h | h
+  · rw [h]; exact rangeRows_guarded_exact s hg vals hv lo hi
+  · rw [rangeRowsWith_guard_irrelevant _ s _ lo hi h]; exact rangeRows_guarded_exact s hg vals hv lo hi
+
+/-- with the guard `if *range.end() < stats.min_value { return None; }` the lookup is exact for every
+query range (this is the behaviour after the pending fix) -/
+theorem C08_range_rows_guarded (s : Stats) (hg : s.gcd ≠ 0) (vals : List Nat)
+    (hv : ∀ v ∈ vals, s.min ≤ v ∧ s.gcd ∣ v - s.min) (lo hi : Nat) :
+    rangeRowsWith true s (vals.map (fun v => (v - s.min) / s.gcd)) lo hi
+      = (List.range vals.length).filter (fun i => decide (lo ≤ vals.getD i 0) && decide (vals.getD i 0 ≤ hi)) :=
+  rangeRows_guarded_exact s hg vals hv lo hi
+
+/-- without the guard: values [10, 20, 30, 10], query range 0..=5 — the transformed range is [0, 0],
+which the stored value of 10 (`(10 − 10)/10 = 0`) satisfies although 10 ∉ [0, 5]: rows 0 and 3 are
+reported -/
 theorem C08_range_transform_counterexample :
-    transformRange (collectStats [10, 20, 30]) 0 5 = (0, 0)
-      ∧ (10 - (collectStats [10, 20, 30]).min) / (collectStats [10, 20, 30]).gcd = 0
-      ∧ ¬ (0 ≤ 10 ∧ 10 ≤ 5) := by decide
+    transformRange (collectStats [10, 20, 30, 10]) 0 5 = (0, 0)
+      ∧ rangeRowsWith false (collectStats [10, 20, 30, 10]) [0, 1, 2, 0] 0 5 = [0, 3]
+      ∧ rangeRowsWith true (collectStats [10, 20, 30, 10]) [0, 1, 2, 0] 0 5 = [] := by decide
 
 /-! ## merge -/
 
